@@ -1,11 +1,11 @@
 package t0147
 
 type G1 struct {
-	F0x0 int32
+	F1x0 int64
 }
 
 type T struct {
-	F0 *G1
-	F1 int64
-	F2 *float32
+	F0 int32
+	F1 G1
+	F2 float32
 }
